@@ -476,6 +476,9 @@ NEUTRAL_UNRECOGNISED = {
     # a new encoder primitive that writes a whole index list in runs whose length is computed from m_avail by a division: the
     # emission grammar does not know the primitive and R06.2 does not decide the computed reservation - C01, C02, C06 exit 2
     "C10j/refactor1.diff": "CdnsEncoder::write_array in runs sized by m_avail / MAX_INDEX_SIZE",
+    # (same primitive as a template for the preamble's code lists: R06.2 proves the run reservation, the emission grammar of C02 /
+    # C09 does not know the primitive - exit 2 there)
+    "C09j/refactor1.diff": "CdnsEncoder::write_array<T> for opcodes / rr_types / vlan_ids",
     # a look-aside of the last address and its index, validated by `index < table.size() && address == last` and parked out of
     # range by clear(): whether a remembered index still addresses its entry is a question about histories - R02.6 / R11.6 exit 2
     "C12j/refactor1.diff": "look-aside of the last IP address and its table index in CdnsBlock",
